@@ -1,8 +1,9 @@
 (* C19 — Operands are never modified and results share no state with them.
    Theorems about the ownership model (Model/Alias.v); which descriptor each public operation has is
-   validated against the real code by the correspondence check (byte snapshots, numpy.shares_memory). *)
+   validated against the real code by the correspondence check (byte snapshots, numpy.shares_memory) and, statically,
+   by the source-derived write-set table of harness/writeset.py (Model/AliasStatic.v, theorems C19_static_* below). *)
 From Coq Require Import List Arith ZArith Lia Bool.
-From PT Require Import Model.Alias Proofs.AliasProofs.
+From PT Require Import Model.Alias Proofs.AliasProofs Model.AliasStatic Proofs.AliasStaticProofs.
 Import ListNotations.
 
 (* Objects never share cells, in every reachable state of every history. *)
@@ -54,4 +55,47 @@ Example C19_nonvacuous :
   obs_ok (desc_of Op_mps_add) [false; false] false false = true /\
   obs_ok (desc_of Op_tdvp_singlesite) [false; true] false false = true /\
   obs_ok (desc_of Op_tdvp_singlesite) [true; true] false false = false.
+Proof. vm_compute. repeat split; reflexivity. Qed.
+
+(* ---- static tie: the write-set table derived from the current source by harness/writeset.py ---- *)
+
+(* the enumeration the coverage check runs over is complete (and duplicate free) *)
+Theorem C19_all_ops_complete : forall o, In o all_ops.
+Proof. exact all_ops_complete. Qed.
+Print Assumptions C19_all_ops_complete.
+
+Theorem C19_all_ops_nodup : NoDup all_ops.
+Proof. exact all_ops_nodup. Qed.
+Print Assumptions C19_all_ops_nodup.
+
+(* If the one boolean evaluation of the correspondence check succeeds on the emitted table, the table assigns to EVERY
+   public operation exactly its descriptor ... *)
+Theorem C19_static_table_sound : forall t, static_check t = true -> forall o, lookup t o = Some (desc_of o).
+Proof. exact static_table_sound. Qed.
+Print Assumptions C19_static_table_sound.
+
+(* ... and every row (every concrete function behind an operation, e.g. each Hamiltonian constructor) has the derived
+   write-set [] for a pure operation and [k] for an in-place algorithm overwriting operand k: never two operands, never
+   "unknown". *)
+Theorem C19_static_rows_sound : forall t, static_check t = true ->
+  forall o w, In (o, w) t -> match desc_of o with KPure => w = Some [] | KInPlace k => w = Some [k] end.
+Proof. exact static_rows_sound. Qed.
+Print Assumptions C19_static_rows_sound.
+
+(* Link to the machine: an operation the table classifies as pure may emit, under its descriptor, no targeted event. *)
+Theorem C19_static_pure_no_target : forall t, static_check t = true ->
+  forall o operands e, lookup t o = Some KPure -> allowed (desc_of o) operands e = true -> target_of e = None.
+Proof. exact static_pure_no_target. Qed.
+Print Assumptions C19_static_pure_no_target.
+
+(* Non-vacuity: Model/AliasStatic.v reference_table = the table derived from the unchanged tree (48 rows: 38 operations, add/multiply helpers and the eight
+   Hamiltonian constructors) passes; tables with an extra write (vdot writing psi; TDVP writing H as well), with an
+   unanalysable function, or lacking an operation do not. *)
+Example C19_static_nonvacuous :
+  static_check reference_table = true /\
+  static_check ((Op_vdot, Some [1]) :: reference_table) = false /\
+  static_check ((Op_tdvp_singlesite, Some [0; 1]) :: reference_table) = false /\
+  static_check ((Op_qr, None) :: reference_table) = false /\
+  static_check (tl reference_table) = true /\
+  static_check (filter (fun r => negb (opname_eqb (fst r) Op_graph_flip)) reference_table) = false.
 Proof. vm_compute. repeat split; reflexivity. Qed.
